@@ -28,7 +28,7 @@
     Not proved: programs whose declarations in use keep a tag variable (K2), programs that
     apply a function through an alias or a parameter (not first order). *)
 From Oal Require Import Tag Cast CastProofs.
-From Oal Require Eval Typing TypingProofs EvalProofs Strat TermProofs ClosureProofs.
+From Oal Require Eval Typing TypingProofs EvalProofs Strat TermProofs ClosureProofs Cycles CyclesProofs RankProofs RecursionLink.
 
 Theorem C01_cast_table_exact_partial : forall s t k,
   resolved t = true -> check s t = true -> admits t k = true ->
@@ -169,3 +169,22 @@ Print Assumptions C01_unstratified_program_loops_refuted.
 
 Example C01_recursive_program_is_stratified : Strat.stratified ClosureProofs.ex_rec_P ClosureProofs.ex_rec_rs = true.
 Proof. exact TermProofs.ex_rec_stratified. Qed.
+
+(** the same with the hypothesis of stratification replaced by what the recursion check establishes:
+    acceptance by the check of a graph that has an edge for every use and whose flags are the
+    evaluator's memoised declarations, and first-order bodies *)
+Theorem C01_accepted_by_the_recursion_check_evaluate : forall P referential scc, CyclesProofs.scc_spec scc ->
+  forall (nu : N -> N -> N) ns g marks,
+  (forall x y, RankProofs.edge P x y -> In (nu (fst x) (snd x), nu (fst y) (snd y)) g) ->
+  (forall m i, In (nu m i) marks -> Strat.cutb P m i = true) ->
+  Cycles.cycles_check referential scc (S (length g)) ns g [] = Cycles.COk marks ->
+  forall E rs, Typing.wt_progb E P rs = true ->
+  (forall m i d, Eval.get_decl P m i = Some d -> Strat.fo P (Eval.d_rhs d) = true) -> (forall r, In r rs -> Strat.fo P r = true) ->
+  exists N, forall n, N <= n ->
+    match Eval.eval_program false P n rs with
+    | Eval.Ok _ | Eval.Err _ => True
+    | Eval.Panic p => TypingProofs.allowed p
+    | Eval.Fuel => False
+    end.
+Proof. exact RecursionLink.accepted_well_typed_programs_evaluate. Qed.
+Print Assumptions C01_accepted_by_the_recursion_check_evaluate.
